@@ -12,6 +12,9 @@
 //!   `hex <bytes in hex>`                   t0 = literal bytes
 //!   `pack <rb> <lb> <n> (<next> <right>)*n <m> (<char> <entry>)*m`
 //!                                          `Program::pack_entrypoints` alone on a synthetic program
+//!   `tprog <program>`                      t0 = a 256-character font whose lig/kern table is the given TFM-level program
+//!   `norm <program>`                       a hand-built `pl::File` (TFM-level program, unpacked entry points) through the real
+//!                                          LIGTABLE printer (`lower`/`display`) and parser (`from_pl_source_code`)
 //!   `kerns <n> (<kind> <value>)*n`         `unpack_kerns` / `pack_kerns` alone
 //!   `dims <max> <n> <value>*n`             `tfm::compress` on its lossless path (dimension tables)
 //!
@@ -117,6 +120,85 @@ fn enc_program(p: &Program, entries: &BTreeMap<u8, i64>, kerns: &[FixWord]) -> V
     v.push(kerns.len() as i64);
     v.extend(kerns.iter().map(|k| k.0 as i64));
     v
+}
+
+fn post_of(code: i64) -> PostLigOperation {
+    use PostLigOperation::*;
+    match code {
+        0 => RetainBothMoveNowhere,
+        1 => RetainBothMoveToInserted,
+        2 => RetainBothMoveToRight,
+        3 => RetainRightMoveToInserted,
+        4 => RetainRightMoveToRight,
+        5 => RetainLeftMoveNowhere,
+        6 => RetainLeftMoveToInserted,
+        _ => RetainNeitherMoveToInserted,
+    }
+}
+
+/// Inverse of `enc_program`.
+fn dec_program(w: &[i64]) -> (Program, BTreeMap<u8, i64>, Vec<FixWord>) {
+    let (rb, lb, n) = (w[0], w[1], w[2] as usize);
+    let mut instructions = vec![];
+    for i in 0..n {
+        let x = &w[3 + 5 * i..8 + 5 * i];
+        instructions.push(Instruction {
+            next_instruction: if x[0] < 0 { None } else { Some(x[0] as u8) },
+            right_char: Char(x[1] as u8),
+            operation: match x[2] {
+                0 => Operation::Kern(FixWord(x[3] as i32)),
+                1 => Operation::KernAtIndex(x[3] as u16),
+                2 => Operation::Ligature { char_to_insert: Char(x[3] as u8), post_lig_operation: post_of(x[4]), post_lig_tag_invalid: false },
+                _ => Operation::EntrypointRedirect(x[3] as u16, x[4] != 0),
+            },
+        });
+    }
+    let mut pos = 3 + 5 * n;
+    let m = w[pos] as usize;
+    pos += 1;
+    let mut entries = BTreeMap::new();
+    for _ in 0..m {
+        entries.insert(w[pos] as u8, w[pos + 1]);
+        pos += 2;
+    }
+    let k = w[pos] as usize;
+    let kerns = w[pos + 1..pos + 1 + k].iter().map(|x| FixWord(*x as i32)).collect();
+    (
+        Program {
+            instructions,
+            left_boundary_char_entrypoint: if lb < 0 { None } else { Some(lb as u16) },
+            right_boundary_char: if rb < 0 { None } else { Some(Char(rb as u8)) },
+            passthrough: Default::default(),
+        },
+        entries,
+        kerns,
+    )
+}
+
+/// A printed LIGTABLE element as the driver's `items` reply writes it (comments are skipped).
+fn enc_item(it: &tfm::pl::ast::LigTable, out: &mut Vec<i64>) {
+    use tfm::pl::ast::{LigTable, LigTableLabel};
+    match it {
+        LigTable::Label(v) => match v.data {
+            LigTableLabel::Char(c) => out.extend([0, c.0 as i64]),
+            LigTableLabel::BoundaryChar => out.push(1),
+        },
+        LigTable::Lig(post, v) => out.extend([2, v.left.0 as i64, 2, v.right.0 as i64, post_code(*post)]),
+        LigTable::Kern(v) => out.extend([2, v.left.0 as i64, 0, v.right.0 as i64, 0]),
+        LigTable::Stop(_) => out.push(3),
+        LigTable::Skip(v) => out.extend([4, v.data.0 as i64]),
+        LigTable::Comment(_) => {}
+    }
+}
+
+/// The lig/kern program of a `pl::File` with all its LABEL positions.
+fn pl_program_view(plf: &tfm::pl::File) -> (Program, BTreeMap<u8, i64>) {
+    let entries = plf
+        .char_tags
+        .iter()
+        .filter_map(|(c, t)| t.ligature().map(|l| (c.0, l as i64)))
+        .collect();
+    (plf.lig_kern_program.clone(), entries)
 }
 
 // ------------------------------------------------------------------------------------------
@@ -960,6 +1042,21 @@ impl C11 {
                 self.sig_suffix = " [label without steps]".into();
             }
         }
+        // Known defect class C11-f: a word with skip byte > 128 (redirect word) that a SKIP/fall-through
+        // chain reaches. tftopl prints a bare STOP for it and counts it in adjusted SKIPs.
+        if let Ok(true) = caught(|| {
+            let (f, _) = tfm::File::deserialize(t0);
+            let mut file = f.expect("t0 was readable");
+            let _ = file.validate_and_fix();
+            let plf: tfm::pl::File = file.into();
+            let (prog, entries) = pl_program_view(&plf);
+            prog.reachable_iter(entries.iter().map(|(c, e)| (Char(*c), *e as u16)))
+                .zip(prog.instructions.iter())
+                .any(|(r, i)| matches!(r, tfm::ligkern::lang::ReachableIterItem::Reachable { .. }) && matches!(i.operation, Operation::EntrypointRedirect(..)))
+        }) {
+            out.tag("t0:reachable-redirect-word");
+            self.sig_suffix.push_str(" [reachable redirect word]");
+        }
         dump("t0.tfm", t0);
         dump("pl0.pl", pl0.as_bytes());
         dump("t1.tfm", &t1);
@@ -1023,6 +1120,18 @@ impl C11 {
         self.compare_fonts(&d0, &d1, out);
         self.compare_ligkern(&d0, &d1, drv, out);
         self.compare_pack(&pl0, drv, out);
+        // the normalisation of the instruction list on the way t0 -> pl0 -> (parsed)
+        let pre = caught(|| {
+            let (f, _) = tfm::File::deserialize(t0);
+            let mut file = f.expect("t0 was readable");
+            let _ = file.validate_and_fix();
+            let plf: tfm::pl::File = file.into();
+            plf
+        });
+        let post = caught(|| tfm::pl::File::from_pl_source_code(&pl0).0);
+        if let (Ok(pre), Ok(post)) = (pre, post) {
+            self.norm_streams(&pre, &post, drv, out);
+        }
     }
 
     fn compare_fonts(&self, d0: &Decoded, d1: &Decoded, out: &mut CaseOutcome) {
@@ -1238,6 +1347,105 @@ impl C11 {
         self.pack_streams(&plf.lig_kern_program, &entries, drv, out);
     }
 
+    /// The TFM→PL→TFM normalisation of the instruction list: `pre` is the `pl::File` that
+    /// `impl From<tfm::File> for pl::File` built (redirect words in place, entry points unpacked),
+    /// `post` the `pl::File` the real parser read back from the real printer's text.
+    /// I vs M: reachable_iter, the printed LIGTABLE items, the re-read program;
+    /// I vs S: `C05.rule` of `post` = `C05.rule` of `pre` (computed by Lean).
+    fn norm_streams(&self, pre: &tfm::pl::File, post: &tfm::pl::File, drv: &mut Driver, out: &mut CaseOutcome) {
+        let (prog, entries) = pl_program_view(pre);
+        if prog.instructions.iter().any(|i| matches!(i.operation, Operation::KernAtIndex(_))) {
+            out.tag("norm:kern-at-index (skipped)");
+            return;
+        }
+        let input = join(&enc_program(&prog, &entries, &[]));
+        // reachable_iter
+        let real_reach = caught(|| {
+            let mut v: Vec<i64> = vec![];
+            for item in prog.reachable_iter(entries.iter().map(|(c, e)| (Char(*c), *e as u16))) {
+                match item {
+                    tfm::ligkern::lang::ReachableIterItem::Reachable { adjusted_skip } => {
+                        v.extend([1, adjusted_skip.map(|x| x as i64).unwrap_or(-1)])
+                    }
+                    _ => v.extend([0, -1]),
+                }
+            }
+            v
+        });
+        match real_reach {
+            Err(p) => out.fail(Kind::ImplPanic, "norm-reach", format!("panic {}", strip_msg(&p)), format!("reachable_iter panicked: {p}\ninput: {}", trunc_s(&input, 1500))),
+            Ok(v) => {
+                let m = drv.ask(&format!("reach {input}"));
+                let i = join(&v);
+                if i.trim() != m.trim() {
+                    out.fail(Kind::ImplVsModel, "norm-reach", "reachable_iter differs from model", format!("impl:  {}\nmodel: {}\ninput: {}", trunc_s(&i, 800), trunc_s(&m, 800), trunc_s(&input, 1500)));
+                }
+                let n_unreach = v.chunks(2).filter(|c| c[0] == 0).count();
+                let n_redirect = prog.instructions.iter().filter(|i| matches!(i.operation, Operation::EntrypointRedirect(..))).count();
+                if n_unreach > n_redirect {
+                    out.tag("norm:drops-unreachable-steps");
+                }
+                if v.chunks(2).zip(&prog.instructions).any(|(c, i)| c[0] == 1 && c[1] >= 0 && Some(c[1]) != i.next_instruction.map(|x| x as i64)) {
+                    out.tag("norm:skip-adjusted");
+                }
+                if v.chunks(2).zip(&prog.instructions).any(|(c, i)| c[0] == 1 && matches!(i.operation, Operation::EntrypointRedirect(..))) {
+                    out.tag("norm:reachable-redirect-word");
+                }
+            }
+        }
+        // the printed LIGTABLE
+        let real_items = caught(|| {
+            let ast = pre.lower(tfm::pl::CharDisplayFormat::Default);
+            let mut v: Vec<i64> = vec![];
+            for root in &ast.0 {
+                if let tfm::pl::ast::Root::LigTable(b) = root {
+                    for it in &b.children {
+                        enc_item(it, &mut v);
+                    }
+                }
+            }
+            v
+        });
+        match real_items {
+            Err(p) => out.fail(Kind::ImplPanic, "norm-items", format!("panic {}", strip_msg(&p)), format!("pl::File::lower panicked: {p}")),
+            Ok(v) => {
+                let m = drv.ask(&format!("items {input}"));
+                let i = join(&v);
+                if i.trim() != m.trim() {
+                    out.fail(Kind::ImplVsModel, "norm-items", "printed LIGTABLE differs from model", format!("impl:  {}\nmodel: {}\ninput: {}", trunc_s(&i, 800), trunc_s(&m, 800), trunc_s(&input, 1500)));
+                }
+            }
+        }
+        // the program read back
+        let (qprog, qentries) = pl_program_view(post);
+        let q = join(&enc_program(&Program { passthrough: Default::default(), ..qprog.clone() }, &qentries, &[]));
+        let reply = drv.ask(&format!("norm {input}"));
+        let parts: Vec<&str> = reply.split(" | ").collect();
+        if parts.len() != 3 {
+            panic!("driver reply malformed: {reply}");
+        }
+        if parts[0].trim() != q.trim() {
+            out.fail(Kind::ImplVsModel, "norm-parse", "re-read lig/kern program differs from model (printParse)", format!("impl:  {}\nmodel: {}\ninput: {}", trunc_s(&q, 800), trunc_s(parts[0], 800), trunc_s(&input, 1500)));
+        }
+        if parts[2] == "nwf=1" {
+            out.tag("norm:hypotheses-hold");
+            if parts[1].trim() != q.trim() {
+                out.fail(Kind::ImplVsModel, "norm-closed", "re-read lig/kern program differs from model (normalise)", format!("impl:  {}\nmodel: {}\ninput: {}", trunc_s(&q, 800), trunc_s(parts[1], 800), trunc_s(&input, 1500)));
+            }
+        } else {
+            out.tag("norm:outside-hypotheses");
+        }
+        // S: same rule function before and after (kerns are inline on both sides)
+        let verdict = drv.ask(&format!("sem {input} {q}"));
+        if verdict != "same" {
+            if parts[2] == "nwf=1" {
+                out.fail(Kind::ImplVsSpec, "norm-rule", format!("normalisation changes C05.rule{}", self.sig_suffix), format!("{verdict}\ninput: {}\noutput: {}", trunc_s(&input, 1500), trunc_s(&q, 1500)));
+            } else {
+                out.tag("norm:rule-changes-outside-hypotheses");
+            }
+        }
+    }
+
     fn pack_streams(&self, prog: &Program, entries: &BTreeMap<u8, i64>, drv: &mut Driver, out: &mut CaseOutcome) {
         let input = enc_program(prog, entries, &[]);
         let mut p = prog.clone();
@@ -1281,6 +1489,10 @@ impl C11 {
             }
         }
     }
+}
+
+fn c_push(c: &mut Vec<String>, s: String) {
+    c.push(s);
 }
 
 fn trunc_s(s: &str, n: usize) -> String {
@@ -1373,6 +1585,7 @@ impl Property for C11 {
     fn generate(&mut self, ctx: &Ctx, rng: &mut Rng) -> Vec<String> {
         let mut v = vec![];
         let (n_gen, n_raw, n_pack, n_kerns) = if ctx.thorough { (6000, 3000, 20000, 4000) } else { (500, 250, 2500, 500) };
+        let n_norm = if ctx.thorough { 12000 } else { 900 };
         let mut r = rng.fork();
         for i in 0..n_gen {
             let sh = Shape::random(&mut r, i % 3 == 0);
@@ -1382,6 +1595,73 @@ impl Property for C11 {
         for i in 0..n_raw {
             let sh = Shape::random(&mut r, i % 4 == 0);
             v.push(sh.show("raw"));
+        }
+        // norm: synthetic TFM-level programs (redirect words in front, boundary word behind,
+        // unreachable stretches, SKIPs over them) through the real printer and parser
+        let mut r = rng.fork();
+        for _ in 0..n_norm {
+            let front = *r.pick(&[0usize, 0, 1, 2, 5]);
+            let body: usize = match r.below(5) {
+                0 => r.below(4) as usize,
+                1 => 40 + r.below(260) as usize,
+                _ => 1 + r.below(25) as usize,
+            };
+            let has_lb = body > 0 && r.chance(1, 3);
+            let n = front + body + has_lb as usize;
+            let rb: i64 = if front > 0 && r.chance(2, 3) { r.below(256) as i64 } else { -1 };
+            let mut w: Vec<i64> = vec![rb, -1, n as i64];
+            for i in 0..n {
+                let is_front = i < front;
+                let is_lbw = has_lb && i == n - 1;
+                let stray_redirect = !is_front && !is_lbw && r.chance(1, 60);
+                if is_front || is_lbw || stray_redirect {
+                    let target = if body > 0 { (front + r.below(body as u64) as usize) as i64 } else { 0 };
+                    w.extend([-1, if rb >= 0 { rb } else { 0 }, 3, target, if is_lbw { 0 } else { 1 }]);
+                } else {
+                    let last_body = front + body - 1;
+                    let room = last_body - i;
+                    let next: i64 = if room == 0 || r.chance(1, 3) {
+                        -1
+                    } else if r.chance(1, 3) {
+                        r.below((room as u64).min(6)) as i64
+                    } else if r.chance(1, 40) {
+                        room as i64 + r.below(3) as i64 // into the boundary word or past the end
+                    } else {
+                        0
+                    };
+                    if r.chance(1, 6) {
+                        w.extend([next, r.below(256) as i64, 2, r.below(256) as i64, 7]);
+                    } else {
+                        w.extend([next, r.below(256) as i64, 0, r.range(-100000, 100000), 0]);
+                    }
+                }
+            }
+            if has_lb {
+                let l = match r.below(8) {
+                    0 => n as i64 - 1, // the quirk: the boundary entry point addresses the last word
+                    _ => w[3 + 5 * (n - 1) + 3],
+                };
+                w[1] = l;
+                w[3 + 5 * (n - 1) + 3] = l;
+            }
+            let m: usize = if body == 0 { 0 } else { *r.pick(&[0usize, 1, 1, 2, 3, 5, 12]) };
+            let mut chars: Vec<u8> = (0..=255).collect();
+            for i in (1..256).rev() {
+                let j = r.below(i as u64 + 1) as usize;
+                chars.swap(i, j);
+            }
+            chars.truncate(m);
+            chars.sort();
+            w.push(m as i64);
+            for c in chars {
+                let e = if r.chance(1, 30) { r.below(n as u64 + 1) as i64 } else { (front + r.below(body as u64) as usize) as i64 };
+                w.extend([c as i64, e]);
+            }
+            w.push(0);
+            if n <= 250 && r.chance(1, 3) {
+                v.push(format!("tprog {}", join(&w)));
+            }
+            v.push(format!("norm {}", join(&w)));
         }
         // pack: synthetic programs
         let mut r = rng.fork();
@@ -1579,6 +1859,59 @@ impl Property for C11 {
                     Ok(t0) => self.round_trip(&t0, drv, &mut out),
                 }
             }
+            "tprog" => {
+                // `tprog <program>`: a .tfm with all 256 characters whose lig/kern table is the given
+                // TFM-level program (kern values inline; the real unpack_kerns and serialiser are used)
+                out.tag("src:tprog");
+                let w = parse_i64s(rest);
+                let (prog, entries, _) = dec_program(&w);
+                let t0 = caught(|| {
+                    let mut pl = String::new();
+                    for c in 0..256 {
+                        pl.push_str(&format!("(CHARACTER O {:o} (CHARWD R 1.0))\n", c));
+                    }
+                    let (plf, _) = tfm::pl::File::from_pl_source_code(&pl);
+                    let mut file: tfm::File = plf.into();
+                    let mut p = prog.clone();
+                    file.kerns = p.unpack_kerns();
+                    file.lig_kern_program = p;
+                    for (c, e) in &entries {
+                        if *e <= 255 {
+                            file.char_tags.insert(Char(*c), tfm::CharTag::Ligature(*e as u8));
+                        }
+                    }
+                    file.header.checksum = Some(11);
+                    file.serialize()
+                });
+                match t0 {
+                    Err(p) => out.tag(format!("tprog:cannot-build ({})", strip_msg(&p))),
+                    Ok(t0) => self.round_trip(&t0, drv, &mut out),
+                }
+            }
+            "norm" => {
+                // `norm <program>`: a hand-built pl::File through the real printer and parser
+                out.tag("src:norm");
+                let w = parse_i64s(rest);
+                let (prog, entries, _) = dec_program(&w);
+                out.nontrivial = !entries.is_empty() || prog.left_boundary_char_entrypoint.is_some();
+                let built = caught(|| {
+                    let mut pre = tfm::pl::File::default();
+                    pre.lig_kern_program = prog.clone();
+                    for (c, e) in &entries {
+                        pre.char_tags.insert(Char(*c), tfm::pl::CharTag::Ligature(*e as u16));
+                    }
+                    let text = format!("{}", pre.display(3, tfm::pl::CharDisplayFormat::Default));
+                    let post = tfm::pl::File::from_pl_source_code(&text).0;
+                    (pre, post)
+                });
+                match built {
+                    Err(p) => out.fail(Kind::ImplPanic, "norm", format!("panic {}", strip_msg(&p)), format!("printing/parsing a hand-built pl::File panicked: {p}")),
+                    Ok((pre, post)) => {
+                        self.sig_suffix = String::new();
+                        self.norm_streams(&pre, &post, drv, &mut out)
+                    }
+                }
+            }
             "pack" => {
                 out.tag("src:pack");
                 let w = parse_i64s(rest);
@@ -1685,6 +2018,15 @@ impl Property for C11 {
             }
             _ => panic!("bad case {case}"),
         }
+        // failures of a case in a known defect class carry the class in their signature
+        if !self.sig_suffix.is_empty() && matches!(cmd, "tfm" | "pl" | "gen" | "raw" | "redir" | "hex" | "tprog") {
+            for f in out.failures.iter_mut() {
+                if f.kind == Kind::ImplVsSpec && !f.signature.starts_with("header normalised") && !f.signature.contains(self.sig_suffix.trim()) {
+                    f.signature.push_str(&self.sig_suffix);
+                }
+            }
+        }
+        self.sig_suffix = String::new();
         out
     }
 
@@ -1792,6 +2134,56 @@ impl Property for C11 {
                 if ins.chunks(2).any(|x| x[0] > 0) {
                     let i2: Vec<i64> = ins.chunks(2).flat_map(|x| [if x[0] > 0 { 0 } else { x[0] }, x[1]]).collect();
                     c.push(mk(w[0], w[1], &i2, &ent));
+                }
+            }
+            "norm" | "tprog" => {
+                let w = parse_i64s(rest);
+                let (prog, entries, _) = dec_program(&w);
+                let n = prog.instructions.len();
+                let mk = |p: &Program, e: &BTreeMap<u8, i64>| format!("{cmd} {}", join(&enc_program(p, e, &[])));
+                // drop one label
+                for ch in entries.keys() {
+                    let mut e = entries.clone();
+                    e.remove(ch);
+                    c_push(&mut c, mk(&prog, &e));
+                }
+                // drop one word, renumbering everything that points behind it
+                if n <= 60 {
+                    for j in 0..n {
+                        let mut p = prog.clone();
+                        p.instructions.remove(j);
+                        for (i, ins) in p.instructions.iter_mut().enumerate() {
+                            if i < j {
+                                if let Some(sk) = ins.next_instruction {
+                                    if i + sk as usize + 1 > j && sk > 0 {
+                                        ins.next_instruction = Some(sk - 1);
+                                    }
+                                }
+                            }
+                            if let Operation::EntrypointRedirect(t, b) = ins.operation {
+                                if t as usize > j {
+                                    ins.operation = Operation::EntrypointRedirect(t - 1, b);
+                                }
+                            }
+                        }
+                        if let Some(l) = p.left_boundary_char_entrypoint {
+                            if l as usize > j {
+                                p.left_boundary_char_entrypoint = Some(l - 1);
+                            }
+                        }
+                        let e: BTreeMap<u8, i64> = entries.iter().map(|(c, e)| (*c, if *e as usize > j { *e - 1 } else { *e })).collect();
+                        c_push(&mut c, mk(&p, &e));
+                    }
+                }
+                // SKIP n -> SKIP 0
+                if prog.instructions.iter().any(|i| matches!(i.next_instruction, Some(k) if k > 0)) {
+                    let mut p = prog.clone();
+                    for ins in p.instructions.iter_mut() {
+                        if matches!(ins.next_instruction, Some(k) if k > 0) {
+                            ins.next_instruction = Some(0);
+                        }
+                    }
+                    c_push(&mut c, mk(&p, &entries));
                 }
             }
             "redir" => {
